@@ -42,8 +42,9 @@ CHECKS = {
     "C10": dict(engine="E1 kani-gen", ref="DESIGN.md §6 C10",
                 text="Kani/CBMC decides for all field payloads that the bytes written by the derive_ex Debug impl equal those of a same-named std-derived twin with the ignored fields "
                      "deleted (or of the transparent field alone), for concrete non-alternate format specs (width, fill/align, sign, precision, hex, zero-pad); the field type echoes the flags. "
-                     "No claim for `{:#?}` on shapes with fields.",
-                note=E1_NOTE + " Restricted claim: non-alternate formatter options (PadAdapter does not finish under CBMC: measured undecided after 900 s for a 1-field struct).",
+                     "No solver verdict for `{:#?}` on shapes with fields: those programs are only run natively on sampled payloads.",
+                note=E1_NOTE + " Restricted claim: non-alternate formatter options (PadAdapter does not finish under CBMC: measured undecided after 900 s for a 1-field struct); the alternate flag "
+                     "is covered by native sampling of the same check functions (8880 runs quick), which is sampling and said so in the evidence.",
                 tech="Kani/CBMC bounded model checking of macro-generated Debug impls against a std-derived twin, byte-exact sink"),
     "C12": dict(engine="E1 kani-gen", ref="DESIGN.md §6 C12",
                 text="Kani/CBMC decides for all values that Clone, clone_from, Default, ==, !=, partial_cmp, <, >=, cmp of the derive_ex type agree with a twin carrying #[derive(..)], that == implies "
